@@ -78,4 +78,98 @@ example :
                      && m.columnQL cx w.cells 5 true == [⟨45, 0⟩, ⟨71, 30⟩]
      | _ => false) = true := by decide
 
+/-! ### Truncate and Subseq over a range every row covers -/
+
+/-- **subseq_truncate_exact (Truncate).** If every row of the multi covers `[st,en)` then
+    `Truncate(st, en)` reports no error and every row afterwards spans exactly `[st,en)` and
+    shows exactly the letters (and qualities) it showed at those positions. -/
+theorem truncate_exact (h : Cells) (m : Multi) (st en : Int)
+    (hcov : ∀ r ∈ m.rows, r.start ≤ st ∧ st ≤ en ∧ en ≤ r.«end» ∧ r.s.len ≤ r.s.cap) :
+    (m.truncate st en).2 = true ∧
+    All2 (fun r r' =>
+        r'.letters h = ((r.letters h).drop (st - r.start).toNat).take (en - st).toNat ∧
+        r'.start = st ∧ r'.«end» = en ∧ r'.q = r.q ∧ r'.name = r.name ∧ r'.strand = r.strand)
+      m.rows (m.truncate st en).1.rows := by
+  have hall : ∀ r ∈ m.rows, (r.truncate st en).isSome = true := fun r hr =>
+    Lin.truncate_isSome r st en (hcov r hr).1 (hcov r hr).2.1 (hcov r hr).2.2.1 (hcov r hr).2.2.2
+  obtain ⟨hok, hrows⟩ := Multi.truncate_spec m st en hall
+  refine ⟨hok, hrows.imp fun r r' hrr => ?_⟩
+  obtain ⟨s1, s2, s3, s4, s5, s6, _⟩ := Lin.truncate_spec h r r' st en hrr
+  exact ⟨s1, s2, s3, s4, s5, s6⟩
+
+/-- **subseq_truncate_exact (Subseq).** If every row covers `[st,en)` then `Subseq(st, en)`
+    returns a multi (no error, no panic) whose rows span exactly `[st,en)` and show exactly the
+    letters the receiver shows there; the receiver's backing arrays are untouched and the new
+    rows live in arrays that did not exist before (so the two are independent). -/
+theorem subseq_exact (cx : Ctx) (h : Cells) (m : Multi) (st en : Int)
+    (hcov : ∀ r ∈ m.rows, r.Valid h ∧ r.start ≤ st ∧ st ≤ en ∧ en ≤ r.«end») :
+    ∃ m', (m.subseq cx h st en).2 = some m' ∧
+      All2 (fun r c =>
+          c.letters (m.subseq cx h st en).1 = ((r.letters h).drop (st - r.start).toNat).take (en - st).toNat ∧
+          c.start = st ∧ c.«end» = en ∧ c.q = r.q ∧ c.name = r.name ∧ c.strand = r.strand ∧
+          h.arrays.length ≤ c.s.arr) m.rows m'.rows ∧
+      (∀ b, b < h.arrays.length → (m.subseq cx h st en).1.arr b = h.arr b) ∧
+      (∀ r ∈ m.rows, r.letters (m.subseq cx h st en).1 = r.letters h) := by
+  obtain ⟨cs, h2, hall, _, _, hfr⟩ := subseqFold_spec cx st en m.rows h [] hcov
+  have hres : (m.subseq cx h st en) =
+      ((m.rows.foldl (Multi.subseqStep cx st en) (h, [], true)).1,
+       if (m.rows.foldl (Multi.subseqStep cx st en) (h, [], true)).2.2
+       then some { m with rows := (m.rows.foldl (Multi.subseqStep cx st en) (h, [], true)).2.1 } else none) := rfl
+  rw [hres, h2]
+  refine ⟨{ m with rows := [] ++ cs }, rfl, ?_, hfr, ?_⟩
+  · simp only [List.nil_append]
+    exact hall.imp fun r c hrc => ⟨hrc.1.1, hrc.1.2.1, hrc.1.2.2.1, hrc.1.2.2.2.1, hrc.1.2.2.2.2.1,
+      hrc.1.2.2.2.2.2, hrc.2.1⟩
+  · intro r hr
+    exact Lin.letters_congr (hfr _ (hcov r hr).1.1)
+
+/-! ### AppendColumns on column-stored alignments -/
+
+/-- **append_exact (alignment.Seq / alignment.QSeq, AppendColumns).** When `AppendColumns`
+    accepts its arguments, the alignment's columns are the old columns, every one read exactly
+    as before ("without altering existing columns"), followed by one new column per supplied
+    column holding exactly the supplied letters (`Seq`: letters only, `QSeq`: letter and
+    quality); the new columns live in arrays allocated by the call. -/
+theorem append_exact_aln (cx : Ctx) (h h' : Cells) (a a' : Aln) (rows : Nat) (colsIn : List (List QL))
+    (hv : a.ColsValid h) (happ : a.appendColumns cx h rows colsIn = some (h', a')) :
+    ∃ news, a'.cols = a.cols ++ news ∧
+      (∀ c ∈ a.cols, h'.read c = h.read c) ∧
+      All2 (fun c s => h'.read s = c.map (Lin.stored a.q) ∧ c.length = rows ∧
+          h.arrays.length ≤ s.arr ∧ s.arr < h'.arrays.length) colsIn news ∧
+      (∀ b, b < h.arrays.length → h'.arr b = h.arr b) ∧
+      a'.q = a.q ∧ a'.subs = a.subs ∧ a'.strand = a.strand ∧ a'.off = a.off := by
+  have hok : colsIn.any (fun c => c.length != rows) = false := by
+    cases hc : colsIn.any (fun c => c.length != rows) with
+    | false => rfl
+    | true => simp [Aln.appendColumns, hc] at happ
+  rw [Aln.appendColumns_eq cx h a rows colsIn hok] at happ
+  simp only [Option.some.injEq, Prod.mk.injEq] at happ
+  obtain ⟨e1, e2⟩ := happ
+  obtain ⟨news, h2, hall, _, hfr⟩ := colsFold_spec cx a.q colsIn h a.cols
+  subst e1; subst e2
+  refine ⟨news, h2, fun c hc => read_congr_arr _ _ _ (hfr _ (hv c hc)), ?_, hfr, rfl, rfl, rfl, rfl⟩
+  have hlen : ∀ c ∈ colsIn, c.length = rows := by
+    intro c hc
+    have := List.any_eq_false.mp hok c hc
+    simpa using this
+  exact hall.imp_mem fun c s hc hcs => ⟨hcs.1, hlen c hc, hcs.2.1, hcs.2.2.1⟩
+
+/-- **append_no_retain (AppendColumns).** "without … retaining the caller's buffers": after
+    `AppendColumns`, a write to any slice `b` that existed before the call and is not a column
+    of the alignment — in particular to any of the caller's buffers — changes no column of
+    the alignment. -/
+theorem append_no_retain_aln (cx : Ctx) (h h' : Cells) (a a' : Aln) (rows : Nat) (colsIn : List (List QL))
+    (hv : a.ColsValid h) (happ : a.appendColumns cx h rows colsIn = some (h', a'))
+    (b : Slice) (hb : b.arr < h.arrays.length) (hsep : ∀ c ∈ a.cols, c.arr ≠ b.arr) (i : Nat) (v : QL) :
+    ∀ s ∈ a'.cols, (h'.set b i v).read s = h'.read s := by
+  obtain ⟨news, h2, _, hall, _, _⟩ := append_exact_aln cx h h' a a' rows colsIn hv happ
+  intro s hs
+  rw [h2] at hs
+  apply Heap.read_set_other
+  rcases List.mem_append.mp hs with hold | hnew
+  · exact fun e => hsep s hold e.symm
+  · obtain ⟨c, _, hcs⟩ := hall.exists_left s hnew
+    have := hcs.2.2.1
+    omega
+
 end Biogo.Properties.C07
